@@ -1,5 +1,5 @@
 import QmiModel.Model.Adbasic
-/-! Termination of the include walk of `parse_adbasic_program` under acyclicity. Core Lean only. -/
+/-! Termination of the include walk of `parse_adbasic_program` (work-list + `files_parsed`). Core Lean only. -/
 namespace QmiModel.Adbasic
 
 /-- what parsing one file contributes: its symbols and its resolved includes (`none`: `open` failed) -/
@@ -8,183 +8,150 @@ def stepOf (fs : Files) (incDir f : Str) : Option (List Sym × List Str) :=
   | .ok raw => some ((scanFile f raw).1, resolvedIncludes incDir f (scanFile f raw).2)
   | .error _ => none
 
-theorem parseLoop_succ_of_step (fs : Files) (incDir f : Str) (rest : List Str) (acc : List Sym) (n : Nat)
-    {syms : List Sym} {incs : List Str} (h : stepOf fs incDir f = some (syms, incs)) :
-    parseLoop fs incDir (n + 1) (f :: rest) acc = parseLoop fs incDir n (rest ++ incs) (acc ++ syms) := by
+theorem dropSeen_head_not_seen (seen wl : List Str) (f : Str) (rest : List Str)
+    (h : dropSeen seen wl = f :: rest) : normpath f ∉ seen := by
+  induction wl with
+  | nil => simp [dropSeen] at h
+  | cons g gs ih =>
+    simp only [dropSeen] at h
+    split at h
+    · exact ih h
+    · injection h with h1 h2
+      subst h1
+      assumption
+
+theorem parseLoop_done (fs : Files) (incDir : Str) (n : Nat) (wl seen : List Str) (acc : List Sym)
+    (h : dropSeen seen wl = []) : parseLoop fs incDir n wl seen acc = .ok acc := by
+  cases n <;> simp [parseLoop, h]
+
+theorem parseLoop_succ_of_step (fs : Files) (incDir f : Str) (wl rest seen : List Str) (acc : List Sym) (n : Nat)
+    {syms : List Sym} {incs : List Str} (hd : dropSeen seen wl = f :: rest)
+    (h : stepOf fs incDir f = some (syms, incs)) :
+    parseLoop fs incDir (n + 1) wl seen acc
+      = parseLoop fs incDir n (rest ++ incs) (normpath f :: seen) (acc ++ syms) := by
   unfold stepOf at h
   cases ho : openFile fs f with
   | error e => rw [ho] at h; simp at h
   | ok raw =>
     rw [ho] at h
     simp only [Option.some.injEq, Prod.mk.injEq] at h
-    simp only [parseLoop, ho]
+    simp only [parseLoop, hd, ho]
     rw [← h.1, ← h.2]
 
-theorem parseLoop_succ_of_fail (fs : Files) (incDir f : Str) (rest : List Str) (acc : List Sym) (n : Nat)
-    (h : stepOf fs incDir f = none) :
-    ∃ e, parseLoop fs incDir (n + 1) (f :: rest) acc = .exc e := by
+theorem parseLoop_succ_of_fail (fs : Files) (incDir f : Str) (wl rest seen : List Str) (acc : List Sym) (n : Nat)
+    (hd : dropSeen seen wl = f :: rest) (h : stepOf fs incDir f = none) :
+    ∃ e, parseLoop fs incDir (n + 1) wl seen acc = .exc e := by
   unfold stepOf at h
   cases ho : openFile fs f with
-  | error e => exact ⟨e, by simp [parseLoop, ho]⟩
+  | error e => exact ⟨e, by simp [parseLoop, hd, ho]⟩
   | ok raw => rw [ho] at h; simp at h
 
 /-- more fuel never changes a finished walk -/
-theorem parseLoop_mono (fs : Files) (incDir : Str) (n : Nat) (wl : List Str) (acc : List Sym)
-    (h : parseLoop fs incDir n wl acc ≠ .outOfFuel) :
-    ∀ m, n ≤ m → parseLoop fs incDir m wl acc = parseLoop fs incDir n wl acc := by
-  induction n generalizing wl acc with
+theorem parseLoop_mono (fs : Files) (incDir : Str) (n : Nat) (wl seen : List Str) (acc : List Sym)
+    (h : parseLoop fs incDir n wl seen acc ≠ .outOfFuel) :
+    ∀ m, n ≤ m → parseLoop fs incDir m wl seen acc = parseLoop fs incDir n wl seen acc := by
+  induction n generalizing wl seen acc with
   | zero =>
     intro m _
-    cases wl with
-    | nil => cases m <;> simp [parseLoop]
-    | cons f rest => simp [parseLoop] at h
+    cases hd : dropSeen seen wl with
+    | nil => rw [parseLoop_done _ _ _ _ _ _ hd, parseLoop_done _ _ _ _ _ _ hd]
+    | cons f rest => simp [parseLoop, hd] at h
   | succ n ih =>
     intro m hm
-    cases wl with
-    | nil => cases m <;> simp [parseLoop]
+    cases hd : dropSeen seen wl with
+    | nil => rw [parseLoop_done _ _ _ _ _ _ hd, parseLoop_done _ _ _ _ _ _ hd]
     | cons f rest =>
       obtain ⟨m', rfl⟩ : ∃ m', m = m' + 1 := ⟨m - 1, by omega⟩
       cases hs : stepOf fs incDir f with
       | none =>
         unfold stepOf at hs
         cases ho : openFile fs f with
-        | error e => simp [parseLoop, ho]
+        | error e => simp [parseLoop, hd, ho]
         | ok raw => rw [ho] at hs; simp at hs
       | some p =>
         obtain ⟨syms, incs⟩ := p
-        rw [parseLoop_succ_of_step fs incDir f rest acc m' hs, parseLoop_succ_of_step fs incDir f rest acc n hs]
-        rw [parseLoop_succ_of_step fs incDir f rest acc n hs] at h
-        exact ih _ _ h m' (by omega)
+        rw [parseLoop_succ_of_step fs incDir f wl rest seen acc m' hd hs,
+            parseLoop_succ_of_step fs incDir f wl rest seen acc n hd hs]
+        rw [parseLoop_succ_of_step fs incDir f wl rest seen acc n hd hs] at h
+        exact ih _ _ _ h m' (by omega)
 
-/-- total weight of a work-list -/
-def weight (w : Str → Nat) : List Str → Nat
-  | [] => 0
-  | f :: fs => w f + weight w fs
+/-- entries of the file map whose key has not been parsed yet -/
+def unseen : Files → List Str → Nat
+  | [], _ => 0
+  | (k, _) :: rest, seen => (if k ∈ seen then 0 else 1) + unseen rest seen
 
-theorem weight_append (w : Str → Nat) (a b : List Str) : weight w (a ++ b) = weight w a + weight w b := by
-  induction a with
-  | nil => simp [weight]
-  | cons x xs ih => simp [weight, ih]; omega
-
-theorem weight_le (w : Str → Nat) (l : List Str) (c : Nat) (h : ∀ x ∈ l, w x ≤ c) : weight w l ≤ l.length * c := by
-  induction l with
-  | nil => simp [weight]
-  | cons x xs ih =>
-    have h1 := h x (List.mem_cons_self)
-    have h2 := ih (fun y hy => h y (List.mem_cons_of_mem _ hy))
-    simp only [weight, List.length_cons, Nat.succ_mul]
-    omega
-
-/-- the walk ends whenever the fuel covers the weight `Σ (B+1)^rank` of the work-list, where `rank`
-strictly decreases along include edges and no file has more than `B` (resolved) includes -/
-theorem parseLoop_terminates (fs : Files) (incDir : Str) (rank : Str → Nat) (B : Nat) (P : Str → Prop)
-    (hacyc : ∀ f syms incs, P f → stepOf fs incDir f = some (syms, incs) →
-      incs.length ≤ B ∧ ∀ g ∈ incs, rank g < rank f ∧ P g)
-    (n : Nat) (wl : List Str) (acc : List Sym) (hwl : ∀ f ∈ wl, P f)
-    (hfuel : weight (fun f => (B + 1) ^ rank f) wl ≤ n) :
-    parseLoop fs incDir n wl acc ≠ .outOfFuel := by
-  induction n generalizing wl acc with
-  | zero =>
-    cases wl with
-    | nil => simp [parseLoop]
-    | cons f rest =>
-      exfalso
-      simp only [weight] at hfuel
-      have : 0 < (B + 1) ^ rank f := Nat.pow_pos (by omega)
-      omega
-  | succ n ih =>
-    cases wl with
-    | nil => simp [parseLoop]
-    | cons f rest =>
-      cases hs : stepOf fs incDir f with
-      | none =>
-        obtain ⟨e, he⟩ := parseLoop_succ_of_fail fs incDir f rest acc n hs
-        rw [he]; simp
-      | some p =>
-        obtain ⟨syms, incs⟩ := p
-        rw [parseLoop_succ_of_step fs incDir f rest acc n hs]
-        obtain ⟨hB, hr'⟩ := hacyc f syms incs (hwl f List.mem_cons_self) hs
-        have hr : ∀ g ∈ incs, rank g < rank f := fun g hg => (hr' g hg).1
-        apply ih
-        · intro g hg
-          rcases List.mem_append.1 hg with h | h
-          · exact hwl g (List.mem_cons_of_mem _ h)
-          · exact (hr' g h).2
-        rw [weight_append]
-        simp only [weight] at hfuel
-        have hpos : 0 < (B + 1) ^ rank f := Nat.pow_pos (by omega)
-        cases incs with
-        | nil => simp only [weight]; omega
-        | cons g gs =>
-          have hrf : 1 ≤ rank f := by
-            have := hr g (List.mem_cons_self); omega
-          have hw : weight (fun f => (B + 1) ^ rank f) (g :: gs) ≤ (g :: gs).length * (B + 1) ^ (rank f - 1) := by
-            apply weight_le
-            intro x hx
-            exact Nat.pow_le_pow_right (by omega) (by have := hr x hx; omega)
-          have hsplit : (B + 1) ^ rank f = (B + 1) * (B + 1) ^ (rank f - 1) := by
-            have : rank f = (rank f - 1) + 1 := by omega
-            rw [this, Nat.pow_succ, Nat.mul_comm]; simp
-          have hpos' : 0 < (B + 1) ^ (rank f - 1) := Nat.pow_pos (by omega)
-          have hmul : (g :: gs).length * (B + 1) ^ (rank f - 1) ≤ B * (B + 1) ^ (rank f - 1) :=
-            Nat.mul_le_mul_right _ hB
-          have : B * (B + 1) ^ (rank f - 1) + (B + 1) ^ (rank f - 1) = (B + 1) * (B + 1) ^ (rank f - 1) := by
-            rw [Nat.add_mul]; simp
-          omega
-
-/-! ### the number of includes of a file is bounded over a finite file map -/
-
-theorem scanLines_incs (file : Str) (nr : Nat) (ls : List Str) :
-    (scanLines file nr ls).2 = ls.filterMap matchInclude := by
-  induction ls generalizing nr with
-  | nil => simp [scanLines]
-  | cons l ls ih =>
-    simp only [scanLines, List.filterMap_cons]
-    rw [← ih (nr + 1)]
-    cases matchInclude l <;> rfl
-
-/-- the `#Include` lines of a source text -/
-def includeLines (raw : Str) : List Str := (splitLines (universalNewlines raw)).filterMap matchInclude
-
-theorem scanFile_incs (file raw : Str) : (scanFile file raw).2 = includeLines raw := by
-  simp [scanFile, scanLines_incs, includeLines]
-
-/-- the largest number of `#Include` lines in any file of the map -/
-def maxIncs : Files → Nat
-  | [] => 0
-  | (_, raw) :: rest => max (includeLines raw).length (maxIncs rest)
-
-theorem filesGet_maxIncs (fs : Files) (p raw : Str) (h : filesGet fs p = some raw) :
-    (includeLines raw).length ≤ maxIncs fs := by
+theorem unseen_le_length (fs : Files) (seen : List Str) : unseen fs seen ≤ fs.length := by
   induction fs with
-  | nil => simp [filesGet] at h
+  | nil => simp [unseen]
   | cons kv rest ih =>
     obtain ⟨k, v⟩ := kv
-    simp only [filesGet] at h
-    simp only [maxIncs]
-    split at h
-    · injection h with h; subst h; omega
-    · have := ih h; omega
+    simp only [unseen, List.length_cons]
+    split <;> omega
 
-theorem stepOf_incs_le (fs : Files) (incDir f : Str) (syms : List Sym) (incs : List Str)
-    (h : stepOf fs incDir f = some (syms, incs)) : incs.length ≤ maxIncs fs := by
-  unfold stepOf at h
-  cases ho : openFile fs f with
-  | error e => rw [ho] at h; simp at h
-  | ok raw =>
-    rw [ho] at h
-    simp only [Option.some.injEq, Prod.mk.injEq] at h
-    rw [← h.2, scanFile_incs]
-    unfold openFile at ho
-    split at ho
-    · simp at ho
-    · cases hg : filesGet fs (normpath f) with
-      | none => rw [hg] at ho; simp at ho
-      | some raw' =>
-        rw [hg] at ho
-        simp only at ho
-        injection ho with ho
-        subst ho
-        exact Nat.le_trans (List.length_filterMap_le _ _) (filesGet_maxIncs fs _ _ hg)
+theorem unseen_cons_le (fs : Files) (seen : List Str) (x : Str) : unseen fs (x :: seen) ≤ unseen fs seen := by
+  induction fs with
+  | nil => simp [unseen]
+  | cons kv rest ih =>
+    obtain ⟨k, v⟩ := kv
+    simp only [unseen]
+    by_cases h1 : k ∈ seen
+    · have : k ∈ x :: seen := List.mem_cons_of_mem _ h1
+      simp only [h1, this, if_true]; omega
+    · by_cases h2 : k ∈ x :: seen
+      · simp only [h1, h2, if_true, if_false]; omega
+      · simp only [h1, h2, if_false]; omega
+
+/-- parsing a file that exists and was not parsed before uses up one of the unparsed entries -/
+theorem unseen_lt (fs : Files) (seen : List Str) (k raw : Str) (hg : filesGet fs k = some raw) (hk : k ∉ seen) :
+    unseen fs (k :: seen) < unseen fs seen := by
+  induction fs with
+  | nil => simp [filesGet] at hg
+  | cons kv rest ih =>
+    obtain ⟨k', v⟩ := kv
+    simp only [filesGet] at hg
+    simp only [unseen]
+    by_cases hkk : (k' == k) = true
+    · have e : k' = k := by simpa using hkk
+      subst e
+      have h2 : k' ∈ k' :: seen := List.mem_cons_self
+      have := unseen_cons_le rest seen k'
+      simp only [hk, h2, if_true, if_false]; omega
+    · simp only [hkk] at hg
+      have i := ih hg
+      by_cases h1 : k' ∈ seen
+      · have : k' ∈ k :: seen := List.mem_cons_of_mem _ h1
+        simp only [h1, this, if_true]; omega
+      · by_cases h2 : k' ∈ k :: seen
+        · simp only [h1, h2, if_true, if_false]; omega
+        · simp only [h1, h2, if_false]; omega
+
+theorem openFile_ok_filesGet (fs : Files) (f raw : Str) (h : openFile fs f = .ok raw) :
+    filesGet fs (normpath f) = some raw := by
+  unfold openFile at h
+  split at h
+  · simp at h
+  · cases hg : filesGet fs (normpath f) with
+    | none => rw [hg] at h; simp at h
+    | some raw' => rw [hg] at h; simp only at h; injection h with h; rw [h]
+
+/-- the walk ends as soon as the `open()` budget exceeds the number of files not parsed yet -/
+theorem parseLoop_terminates (fs : Files) (incDir : Str) (n : Nat) (wl seen : List Str) (acc : List Sym)
+    (hfuel : unseen fs seen < n) : parseLoop fs incDir n wl seen acc ≠ .outOfFuel := by
+  induction n generalizing wl seen acc with
+  | zero => omega
+  | succ n ih =>
+    cases hd : dropSeen seen wl with
+    | nil => rw [parseLoop_done _ _ _ _ _ _ hd]; simp
+    | cons f rest =>
+      cases ho : openFile fs f with
+      | error e => simp [parseLoop, hd, ho]
+      | ok raw =>
+        have hs : stepOf fs incDir f = some ((scanFile f raw).1, resolvedIncludes incDir f (scanFile f raw).2) := by
+          simp [stepOf, ho]
+        rw [parseLoop_succ_of_step fs incDir f wl rest seen acc n hd hs]
+        apply ih
+        have := unseen_lt fs seen (normpath f) raw (openFile_ok_filesGet fs f raw ho)
+          (dropSeen_head_not_seen seen wl f rest hd)
+        omega
 
 end QmiModel.Adbasic
